@@ -340,6 +340,9 @@ def main(out_path: str):
                     for e in kws["headers_required"].elts
                 )
     parts.append(dict_sl("requiredHeaders", req, "headers_required sets in xls2json.workbook_to_json (sorted)"))
+    # C05: header columns of the survey sheet and the smart-quote table of clean_text_values
+    parts.append(list_s("selectQuestionFields", question.MultipleChoiceQuestion.get_slot_names(), "question.MultipleChoiceQuestion.get_slot_names() (header_columns of the survey sheet)"))
+    parts.append(dict_ss("smartQuotes", x2j.SMART_QUOTES, "xls2json.SMART_QUOTES"))
     parts.append("end Pyxv.Gen\n")
     # several slices may ask for the same table: keep the first definition of each name
     seen, uniq = set(), []
